@@ -114,6 +114,23 @@ impl FraudProof for BadEncodingFraudProof {
                 (AxisType::Col, AxisType::Col) => header.dah.column_root(self.index).unwrap(),
             };
 
+            // the share must be proven at its own position in the axis being rebuilt,
+            // otherwise proven shares could be moved around to forge a proof for correct data
+            let leaf_idx = if *proof_axis == self.axis {
+                share_idx as u32
+            } else {
+                u32::from(self.index)
+            };
+            if proof.start_idx() != leaf_idx || proof.end_idx() != leaf_idx + 1 {
+                bail_validation!(
+                    "share {share_idx} proven at position {}..{}, expected {}..{}",
+                    proof.start_idx(),
+                    proof.end_idx(),
+                    leaf_idx,
+                    leaf_idx + 1,
+                );
+            }
+
             proof
                 .verify_range(&root, &[&share], **namespace)
                 .map_err(Error::RangeProofError)?;
@@ -149,9 +166,14 @@ impl FraudProof for BadEncodingFraudProof {
         let mut nmt = Nmt::default();
 
         for (n, share) in rebuilt_shares.iter().enumerate() {
-            let ns = if n < ods_width {
-                // safety: length must be correct
-                Namespace::from_raw(&share[..NS_SIZE]).unwrap()
+            // only the first quadrant holds original data, everything else is parity
+            let ns = if n < ods_width && usize::from(self.index) < ods_width {
+                match Namespace::from_raw(&share[..NS_SIZE]) {
+                    Ok(ns) => ns,
+                    // reconstructed share doesn't even have a valid namespace
+                    // befp is legit
+                    Err(_) => return Ok(()),
+                }
             } else {
                 Namespace::PARITY_SHARE
             };
